@@ -2,14 +2,51 @@
 
 Two case streams: typed triples (the implementation's merge(a,b) must be the join of a and b
 in the documented order, decided by `C04_join_b`, proved sound in Props/C04.v) and
-heterogeneous pairs (Merge<Other>/PartialOrd<Other>/PartialEq<Other>/LatticeFrom<Other> across
-representations must agree with the homogeneous operations after conversion)."""
+heterogeneous pairs (Merge<Other>/PartialOrd<Other>/PartialEq<Other>/LatticeFrom<Other>/IsBot
+across representations must agree with the homogeneous operations after conversion)."""
 from props.C01 import C01
 from tools import lat, vlib
-from tools.vlib import g_bool, g_cmp
 
 
-class C04(C01):
+class HetMixin:
+    """adds the cross-representation stream to a triple-based lattice check"""
+
+    def het_types(self):
+        if not hasattr(self, "_het"):
+            self._het = vlib.run_harness(self.ctx, self.bin, [{"k": "het_types"}], name="hettypes")[0]
+        return self._het
+
+    def gen(self, rng, tier, n):
+        cases = lat.gen_triples(rng, self.types(), tier, n // 2, self.pick)
+        return cases + lat.gen_het(rng, self.het_types(), n // 2)
+
+    def shrink(self, case):
+        if case["k"] == "triple":
+            return lat.shrink_triple(case)
+        return lat.shrink_het(case)
+
+    def nontrivial(self, case, res):
+        if "ab" not in res:
+            return True
+        if case["k"] == "triple":
+            return C01.nontrivial(self, case, res)
+        return case["a"] != case["b"] and (res["ab"][1] or res["cmp_ab"] != "Eq")
+
+    def distribution(self, cases, results):
+        tri = [(c, r) for c, r in zip(cases, results) if c["k"] == "triple"]
+        d = lat.triple_distribution([c for c, _ in tri], [r for _, r in tri])
+        het, hcmp = {}, {}
+        for c, r in zip(cases, results):
+            if c["k"] == "het":
+                het[c["ty"]] = het.get(c["ty"], 0) + 1
+                k = str(r.get("cmp_ab"))
+                hcmp[k] = hcmp.get(k, 0) + 1
+        d["het_per_pair"] = het
+        d["het_cmp_ab"] = hcmp
+        return d
+
+
+class C04(HetMixin, C01):
     points = False
     model_vo = ["theories/Lattice/Het.vo"]
     props_vo = "theories/Props/C04.vo"
@@ -23,76 +60,16 @@ class C04(C01):
         "union-find (lattices/src/union_find.rs) is covered by Props/C04uf.v once its engine is merged",
         "representations share one carrier in the model; LatticeFrom is the identity there"]
 
-    def het_types(self):
-        if not hasattr(self, "_het"):
-            self._het = vlib.run_harness(self.ctx, self.bin, [{"k": "het_types"}], name="hettypes")[0]
-        return self._het
-
-    def gen(self, rng, tier, n):
-        cases = lat.gen_triples(rng, self.types(), tier, n // 2, self.pick)
-        names = self.het_types()
-        per = max(4, (n // 2) // max(1, len(names)))
-        for name in names:
-            codes = name.split("@")[0].split(" <- ")
-            ts, to = lat.parse_sexp(codes[0]), lat.parse_sexp(codes[1])
-            for _ in range(per):
-                a = lat.gen_value(rng, ts)
-                r = rng.below(4)
-                # `other` must respect its own representation; often derived from a
-                b = lat.gen_value(rng, to) if r < 3 else lat.perturb(rng, to, lat.gen_value(rng, to))
-                cases.append({"k": "het", "ty": name, "a": a, "b": b, "src": "rnd"})
-        return cases
-
     def to_coq(self, case, res):
-        if case["k"] == "triple":
-            if "ab" not in res or not res.get("owned_ok", True):
-                return 3
-            t = lat.parse_type(case["ty"])
-            if not lat.key_total(t):
-                return lat.triple_term("Ctrue_b", case, res)
-            return "(chk_join %s %s %s %s %s)" % (lat.coq_ty(t), lat.coq_val(t, case["a"]), lat.coq_val(t, case["b"]),
-                                                  lat.coq_val(t, case["c"]), lat.coq_obs(t, res))
-        if "ab" not in res:
+        if case["k"] == "het":
+            return lat.het_term(case, res)
+        if "ab" not in res or not res.get("owned_ok", True):
             return 3
-        t = lat.parse_sexp(case["ty"].split("@")[0].split(" <- ")[0])
-        ct = lat.coq_ty(t)
-        obs = "(Build_hobs %s %s %s %s %s %s %s %s)" % (
-            ct, lat.coq_mres(t, res["ab"]), g_cmp(res["cmp_ab"]), g_bool(res["eq_ab"]), lat.coq_val(t, res["from_b"]),
-            lat.coq_mres(t, res["hom_ab"]), g_cmp(res["hom_cmp_ab"]), g_bool(res["hom_eq_ab"]))
-        return "(chk_het %s %s %s %s)" % (ct, lat.coq_val(t, case["a"]), lat.coq_val(t, case["b"]), obs)
-
-    def shrink(self, case):
-        if case["k"] == "triple":
-            return lat.shrink_triple(case)
-        codes = case["ty"].split("@")[0].split(" <- ")
-        ts, to = lat.parse_sexp(codes[0]), lat.parse_sexp(codes[1])
-        out = []
-        for sv in lat.shrink_value(to, case["b"]):
-            out.append(dict(case, b=sv, src="shrunk"))
-        for sv in lat.shrink_value(ts, case["a"]):
-            out.append(dict(case, a=sv, src="shrunk"))
-        return out
-
-    def nontrivial(self, case, res):
-        if "ab" not in res:
-            return True
-        if case["k"] == "triple":
-            return C01.nontrivial(self, case, res)
-        return case["a"] != case["b"] and (res["ab"][1] or res["cmp_ab"] != "Eq")
-
-    def distribution(self, cases, results):
-        tri = [(c, r) for c, r in zip(cases, results) if c["k"] == "triple"]
-        d = lat.triple_distribution([c for c, _ in tri], [r for _, r in tri])
-        het = {}
-        hcmp = {}
-        for c, r in zip(cases, results):
-            if c["k"] == "het":
-                het[c["ty"]] = het.get(c["ty"], 0) + 1
-                k = str(r.get("cmp_ab"))
-                hcmp[k] = hcmp.get(k, 0) + 1
-        d["het_per_pair"] = het
-        d["het_cmp_ab"] = hcmp
-        return d
+        t = lat.parse_type(case["ty"])
+        if not lat.key_total(t):
+            return lat.triple_term("Ctrue_b", case, res)
+        return "(chk_join %s %s %s %s %s)" % (lat.coq_ty(t), lat.coq_val(t, case["a"]), lat.coq_val(t, case["b"]),
+                                              lat.coq_val(t, case["c"]), lat.coq_obs(t, res))
 
 
 def main(ctx):
